@@ -33,11 +33,30 @@
 #include <string>
 #include <vector>
 
+// The driver is built twice (in parallel) from this one file:
+//   -DC10_PART=1  commands K, G, R  (the construct_* routines and the dense generalised solver
+//                 front end only: a light translation unit)
+//   -DC10_PART=2  command E         (tapkee::embed, i.e. the whole library: a heavy one)
+//   no C10_PART   everything
+#ifndef C10_PART
+#define C10_PART 0
+#endif
+#if C10_PART == 1
+#include <tapkee/defines.hpp>
+#include <tapkee/utils/logging.hpp>
+#include <tapkee/utils/naming.hpp>
+#include <tapkee/utils/time.hpp>
+#include <tapkee/callbacks/eigen_callbacks.hpp>
+#include <tapkee/routines/generalized_eigendecomposition.hpp>
+#include <tapkee/routines/laplacian_eigenmaps.hpp>
+#include <tapkee/routines/locally_linear.hpp>
+#else
 #include <tapkee/tapkee.hpp>
 #include <tapkee/callbacks/eigen_callbacks.hpp>
 #include <tapkee/routines/generalized_eigendecomposition.hpp>
 #include <tapkee/routines/laplacian_eigenmaps.hpp>
 #include <tapkee/routines/locally_linear.hpp>
+#endif
 
 using namespace tapkee;
 using namespace tapkee::tapkee_internal;
@@ -74,6 +93,7 @@ static bool read_x(std::istringstream& is, int N, int D, DenseMatrix& X)
     return true;
 }
 
+#if C10_PART != 2
 static int do_K(std::istringstream& is)
 {
     std::string m;
@@ -150,6 +170,9 @@ static int do_G(std::istringstream& is)
     return 0;
 }
 
+#endif // C10_PART != 2
+
+#if C10_PART != 1
 static int method_of(const std::string& m)
 {
     if (m == "npe") return 0;
@@ -218,6 +241,9 @@ static int do_E(std::istringstream& is)
     return 0;
 }
 
+#endif // C10_PART != 1
+
+#if C10_PART != 2
 // plain reference arithmetic: nothing here knows about triangles
 static int do_R(std::istringstream& is)
 {
@@ -278,6 +304,8 @@ static int do_R(std::istringstream& is)
     return 0;
 }
 
+#endif // C10_PART != 2
+
 int main()
 {
     std::string line;
@@ -294,10 +322,15 @@ int main()
         fflush(stdout);
         try
         {
-            if (cmd == "K") do_K(is);
+            if (false) {}
+#if C10_PART != 2
+            else if (cmd == "K") do_K(is);
             else if (cmd == "G") do_G(is);
-            else if (cmd == "E") do_E(is);
             else if (cmd == "R") do_R(is);
+#endif
+#if C10_PART != 1
+            else if (cmd == "E") do_E(is);
+#endif
             else printf("? ERR unknown\n");
         }
         catch (const std::exception& ex)
